@@ -650,7 +650,13 @@ func runC19(tier string, seed int64, outdir string, replay string) error {
 		emitJobs(c.class, c.p, c19RunJobs(c.p))
 	}
 	// ---- (a) retry loop, one batch per table (retryIntervals is a package variable)
-	for _, batch := range c19RetryPlans(tier, r) {
+	mon := startStallMonitor()
+	defer mon.Stop()
+	batches := c19RetryPlans(tier, r)
+	stalledRetry := make([][]bool, len(batches))
+	skippedStalled := 0
+	for bi, batch := range batches {
+		stalledRetry[bi] = make([]bool, len(batch))
 		var iv []time.Duration
 		for _, ms := range batch[0].TableMs {
 			iv = append(iv, time.Duration(ms)*time.Millisecond)
@@ -672,9 +678,19 @@ func runC19(tier string, seed int64, outdir string, replay string) error {
 				// a cancelled run that returns late may just have been descheduled: run it again
 				// (a real delay repeats itself)
 				for try := 0; try < 3; try++ {
+					t0 := time.Now()
 					res[i] = c19RunDirect(batch[i])
-					if o := res[i]; !(o.Result == 3 && o.CancelNs >= 0 && o.Te-o.CancelNs > int64(20*time.Millisecond) &&
-						(len(o.Atts) == 0 || o.Te-o.Atts[len(o.Atts)-1].End > int64(20*time.Millisecond))) {
+					o := res[i]
+					stalledRetry[bi][i] = mon.MaxGap(t0, time.Now()) > 10*time.Millisecond
+					lateReturn := o.Result == 3 && o.CancelNs >= 0 && o.Te-o.CancelNs > int64(20*time.Millisecond) &&
+						(len(o.Atts) == 0 || o.Te-o.Atts[len(o.Atts)-1].End > int64(20*time.Millisecond))
+					afterCancel := false
+					for _, a := range o.Atts {
+						if o.CancelNs >= 0 && a.No > 0 && a.Start > o.CancelNs {
+							afterCancel = true // what a stall between the two timers also produces
+						}
+					}
+					if !stalledRetry[bi][i] && !lateReturn && !afterCancel {
 						break
 					}
 				}
@@ -683,6 +699,11 @@ func runC19(tier string, seed int64, outdir string, replay string) error {
 		wg.Wait()
 		restore()
 		for i := range batch {
+			if stalledRetry[bi][i] {
+				skippedStalled++ // the process was not scheduled for > 10 ms in each of three runs
+				w.Hist("skipped_stalled")
+				continue
+			}
 			emitRetry(batch[i], res[i])
 		}
 	}
@@ -717,6 +738,6 @@ func runC19(tier string, seed int64, outdir string, replay string) error {
 		"retry instants are nanoseconds since just before doWithRetry / ManageAsync was called; the model is driven by the observed call durations and timer latencies (0 <= latency <= 3 s)",
 		"maxRetryDuration (30 days) is not reached by any run; the give-up branch is a statement about the model only",
 		"Issue's second (production) order after a test-CA success needs an ACME server; here only newACMEClient's directory choice and usingTestCA are compared")
-	w.Meta.Extra = map[string]any{"retry_tables_ms": "[30] [30 60 120] [40 40 80 150 150] (+2 in thorough)", "max_retry_duration_ns": int64(certmagic.VerifMaxRetryDuration)}
+	w.Meta.Extra = map[string]any{"retry_cases_skipped_stalled": skippedStalled, "retry_tables_ms": "[30] [30 60 120] [40 40 80 150 150] (+2 in thorough)", "max_retry_duration_ns": int64(certmagic.VerifMaxRetryDuration)}
 	return nil
 }
